@@ -71,7 +71,7 @@ func genWalRet(g *gen, n int, tier string, w *bufio.Writer) {
 				}
 			}
 			// creation times: strictly older for older files; some beyond 24 h
-			ages := make([]string, 8)
+			ages := make([]string, 14) // at most 10 closed files exist here
 			a := 1 + g.intn(30)
 			for i := len(ages) - 1; i >= 0; i-- {
 				if a == 24 { // never exactly at the age limit: the code measures real time (24 h plus a few microseconds)
@@ -433,10 +433,10 @@ func runWal(r *runner) {
 			now := time.Now()
 			ages := strings.Split(kv["ages"], ",")
 			for i := 0; i+1 < len(fs); i++ {
-				h := 0
-				if i < len(ages) {
-					h, _ = strconv.Atoi(ages[i])
+				if i >= len(ages) || ages[i] == "" {
+					continue // no age given for this file: it keeps its real creation time (age 0, still older than the current file)
 				}
+				h, _ := strconv.Atoi(ages[i])
 				os.Rename(fs[i], filepath.Join(x.dir, fmt.Sprintf("%020d.wal", now.Add(-time.Duration(h)*time.Hour).UnixNano())))
 			}
 			n, err := x.w.ManageRetention(wal.WALRetentionConfig{MaxFileCount: atoi(kv["count"]),
